@@ -95,6 +95,25 @@ def main(table_path: str, out_path: str) -> None:
                     viol.append({"clause": "C17_MatchesDefinition", "signature": sig, "detail": det})
                 return kind, e_f, det, sig
 
+            # the same population in other memory layouts ("for every real vector"): Fortran order, a transposed view,
+            # a strided slice of a larger array, a read-only array - each must be repaired exactly like the plain one
+            big = np.zeros((2 * len(xs), 3), dtype=np.float64)
+            big[::2, :2] = xs
+            ro = xs.copy()
+            ro.setflags(write=False)
+            for lname, arr in (("fortran", np.asfortranarray(xs)), ("transposed-view", np.ascontiguousarray(xs.T).T),
+                               ("strided", big[::2, :2]), ("read-only", ro)):
+                n_eval += len(xs)
+                try:
+                    alt = np.asarray(apply_bounds(arr, bounds, m), dtype=np.float64)
+                except Exception as ex:  # noqa: BLE001
+                    viol.append({"clause": "C17_LandsInBox", "signature": f"method={m} conc={cname} layout={lname}", "detail": {"exception": repr(ex)[:200]}})
+                    continue
+                if alt.shape != res.shape or not np.array_equal(alt, res):
+                    badrow = int(np.argmax(np.any(alt != res, axis=1))) if alt.shape == res.shape else -1
+                    viol.append({"clause": "C17_LandsInBox" if alt.shape != res.shape or not (bounds[0, 0] <= alt[badrow, 0] <= bounds[0, 1]) else "C17_MatchesDefinition",
+                                 "signature": f"method={m} box=({lo_f!r},{hi_f!r}) conc={cname} layout={lname} x={float(xs[badrow, 0])!r}",
+                                 "detail": {"result": repr(alt[badrow].tolist() if badrow >= 0 else alt.shape), "plain_layout_result": repr(res[badrow].tolist() if badrow >= 0 else res.shape)}})
             for c, x_f, (r, r2) in zip(cs, xs[:, 0], res):
                 n_eval += 1
                 distinct.add((m, lo, hi, c["xk"], c["xd"], cname))
